@@ -335,6 +335,12 @@ def tmpl_stack0_data(rng, nan_share=0.2, area_share=0.25):
         # (the stack is not empty: unread characters of the line are below it)
         # (0 printed characters first: the 0 is then the ONLY item of stack 0 and the NaN put back is dropped, so the next
         # pop - possibly a test of the same command's area - reads a fresh line)
+        if rng.random() < 0.35:
+            # nothing read yet: a 0 is the ONLY item of stack 0; its reciprocal (NaN) is refused by the emptied stack, so the
+            # first test of the SAME command's area already reads a fresh line
+            area = rng.choice([('?', None, None), ('?', 4, None), ('!', None, 4), ('?', None, ('!', 4, None)), ('!', 4, ('!', None, None)),
+                               rand_area(rng, [4, 5, 13], p_none=0.0, p_slot_none=0.5)])
+            return ([(5, 1, 0, None), (0, 1, 0, None), (4, 1, rng.choice([3, 3, 4, 0]), area)] + [(1, 1, rng.choice([1, 1, 2]), None)] * rng.randint(2, 5))
         prog = [(5, 1, 0, None)] + [(1, 1, 1, None)] * rng.randint(0, 3)
         ar = lambda: rng.choice([None, None, ('?', None, None), ('?', 4, None), ('!', None, 4), ('?', None, ('!', 4, None)),
                                  rand_area(rng, [4, 5, 13], p_none=0.0, p_slot_none=0.5)])
